@@ -29,6 +29,8 @@ type caseRun struct {
 	Args  []string
 	Sem   []semViol // violations reported by the executed driver (semantic checks)
 	SemNote string
+	FullWhy string
+	FullDone bool
 }
 
 type semViol struct{ Method, Sig, Detail string }
@@ -113,6 +115,32 @@ func runStream(seed int64, n int, opt gen.Options, mk func(i int) *gen.Case, eac
 			runs[j].Model = cmpr.DecodeModel(res[k])
 			runs[j].Diffs = cmpr.Compare(runs[j].Impl, runs[j].Model)
 		}
+		// whole-file correspondence: model's comment surgery + cut + content vs the bytes written
+		var wg2 sync.WaitGroup
+		for _, j := range idx {
+			cr := runs[j]
+			if cr.Model.Kind != "ok" || cr.Impl.Panicked || cr.Impl.TimedOut {
+				continue
+			}
+			wg2.Add(1)
+			sem <- struct{}{}
+			go func(cr *caseRun) {
+				defer wg2.Done()
+				defer func() { <-sem }()
+				want, why := fullFile(cr)
+				cr.FullWhy = why
+				switch {
+				case why != "" && cr.Impl.Status == 0:
+					cr.Diffs = append(cr.Diffs, cmpr.Diff{What: "whole file: model pipeline fails late (" + why + ") but the tool succeeded", Model: trunc(want, 1500), Impl: trunc(cr.Impl.Output, 1500)})
+				case why == "" && cr.Impl.Status != 0:
+					cr.Diffs = append(cr.Diffs, cmpr.Diff{What: "whole file: model produces a file but the tool failed", Model: trunc(want, 1500), Impl: cr.Impl.Stderr})
+				case why == "" && cr.Impl.HasOut && want != cr.Impl.Output:
+					cr.Diffs = append(cr.Diffs, cmpr.Diff{What: "whole file bytes", Model: want, Impl: cr.Impl.Output})
+				}
+				cr.FullDone = true
+			}(cr)
+		}
+		wg2.Wait()
 		for _, cr := range runs {
 			each(cr)
 			os.RemoveAll(cr.Dir)
